@@ -180,6 +180,15 @@ impl Tr {
                     }
                 }
                 cx.bind_pat(&l.pat, public);
+                // ARRAY-MAP bookkeeping: an immutable binding of an array literal has that literal's length
+                if let (Some(init), Pat::Ident(pi)) = (&l.init, &l.pat) {
+                    if let (Expr::Array(a), None) = (strip(&init.expr), &pi.mutability) {
+                        if let Some(b) = cx.lookup(&pi.ident.to_string()) {
+                            let id = b.id;
+                            cx.array_lits.insert(id, a.elems.len());
+                        }
+                    }
+                }
                 out
             }
             Stmt::Item(syn::Item::Const(c)) => {
@@ -535,7 +544,10 @@ impl Tr {
             let cands: Vec<Option<String>> = self.repo.iter().filter(|r| r.name == name && r.impl_ty.is_some() && r.has_self).map(|r| r.impl_ty.clone()).collect();
             let own = cands.iter().any(|t| *t == cx.impl_ty);
             if own {
-                found = Some(self.auto_fn(cx.impl_ty.as_deref(), &name));
+                // SELF-INHERIT: a helper method of the same type called on the caller's own `self` sees the same public fields
+                let mut inherit: Vec<String> = cx.public_paths.iter().filter(|p| p.as_str() == "self" || p.starts_with("self.")).cloned().collect();
+                inherit.sort();
+                found = Some(self.auto_fn_pub(cx.impl_ty.as_deref(), &name, inherit));
             } else if cands.len() == 1 {
                 found = Some(self.auto_fn(cands[0].as_deref(), &name));
             }
@@ -1130,6 +1142,23 @@ impl Tr {
                 if let Some(info) = self.analyse_iter(cx, e, false, &mut out, &mut pending) {
                     // allow-rule LAZY: a lazily mapped iterator is assumed to be consumed completely by whoever receives it
                     self.flush_pending(cx, pending, &info, &mut out);
+                    return out;
+                }
+            }
+            // allow-rule ARRAY-MAP: `[a, b].map(closure)` / `x.map(closure)` with `let x = [a, b];` (immutable): `<[T; N]>::map` runs
+            // the closure exactly N times (N = the literal's length), whatever the elements are
+            if n == "map" {
+                let len = match strip(&m.receiver) {
+                    Expr::Array(a) => Some(a.elems.len()),
+                    Expr::Path(p) => p.path.get_ident().and_then(|i| cx.lookup(&i.to_string())).and_then(|b| cx.array_lits.get(&b.id).copied()),
+                    _ => None,
+                };
+                if let Some(len) = len {
+                    out.extend(self.walk_expr(cx, &m.receiver));
+                    let elem_public = cx.is_pub(&m.receiver);
+                    let trip = json!({"kind": "array-literal-len", "n": len});
+                    let node = self.closure_loop(cx, cl, true, elem_public, false, false, &trip, "ARRAY-MAP: the receiver is an array literal, its length is syntactic", "map", 0);
+                    out.push(node);
                     return out;
                 }
             }
